@@ -123,11 +123,14 @@ def run_direct(case, rec):
     n_exec = 0
     sample = None
     for it in range(case["n"]):
-        cell, kind = cells.random_cell(rng, lo=2.0, hi=10.0)
-        pbc = np.array(cells.PBCS[int(rng.integers(8))])
-        n = int(rng.integers(1, 11))
-        pos, _, mode = cells.positions_inside(rng, cell, n)
+        hostile = rng.random() < 0.15          # strongly sheared periodic cell + unbounded cutoff + many atoms
+        cell, kind = cells.random_cell(rng, lo=2.0, hi=10.0, kind="sheared" if hostile else None)
+        pbc = np.array(cells.PBCS[int(rng.integers(8))]) if not hostile else np.array(cells.PBCS[int(rng.integers(4, 8))])
+        n = int(rng.integers(1, 11)) if not hostile else int(rng.integers(7, 11))
+        pos, _, mode = cells.positions_inside(rng, cell, n, mode="uniform" if hostile else None)
         cutoff, cclass = _cutoff_choice(rng, pos, cell, pbc)
+        if hostile:
+            cutoff, cclass = (None, "None") if rng.random() < 0.5 else (float("inf"), "inf")
         if _n_images(cell, pbc, np.inf if cutoff is None else cutoff) * n > 60000:
             cutoff, cclass = float(rng.uniform(0.5, 3.0)), "finite"
             if _n_images(cell, pbc, cutoff) * n > 60000:
